@@ -843,3 +843,91 @@ def nomut_for(ctx, prop, rule, regs, floor):
         ctx, prop, rule, floor=floor,
         only=lambda f, role: f.fq in allowed or role.startswith(
             ('wrapper', 'wrap_ufunc', 'helper')))
+
+
+# ---------------------------------------------------------------------------
+# a bounds guard must measure the object that is indexed afterwards
+# ---------------------------------------------------------------------------
+LEN_PRESERVING = {'builtins.list', 'builtins.tuple', 'numpy.asarray',
+                  'numpy.array', 'numpy.asanyarray', 'numpy.matrix',
+                  'numpy.copy'}
+
+
+def stale_bounds_guards(ctx, f):
+    """[(guard If, name, reassignment stmt, later subscript)]: an `if` that
+    compares an index with `len(V)` / `V.shape` and leaves (raise/return), then
+    V is re-bound to something that need not have the same extent, then V is
+    indexed - the guard measured another object."""
+    from ..model import own_nodes
+    out = []
+    if f.is_lambda:
+        return out
+    nodes = list(own_nodes(f))
+    for g in nodes:
+        if not (isinstance(g, ast.If) and g.body and isinstance(
+                g.body[-1], (ast.Raise, ast.Return))):
+            continue
+        measured = set()
+        for c in ast.walk(g.test):
+            if isinstance(c, ast.Call) and isinstance(c.func, ast.Name) and \
+                    c.func.id == 'len' and c.args and isinstance(
+                    c.args[0], ast.Name):
+                measured.add(c.args[0].id)
+            if isinstance(c, ast.Attribute) and c.attr in ('shape', 'size') \
+                    and isinstance(c.value, ast.Name):
+                measured.add(c.value.id)
+        if not measured or not isinstance(g.test, (ast.Compare, ast.BoolOp)):
+            continue
+        gend = getattr(g, 'end_lineno', g.lineno)
+        for v in sorted(measured):
+            re_ = []
+            for n in nodes:
+                if isinstance(n, ast.Assign) and n.lineno > gend and any(
+                        isinstance(t, ast.Name) and t.id == v
+                        for t in n.targets):
+                    val = n.value
+                    keep = False
+                    if isinstance(val, ast.Call) and isinstance(
+                            val.func, (ast.Name, ast.Attribute)):
+                        r = ctx.cg.resolve_name_expr(f, val.func)
+                        if r and r[0] == 'ext' and r[1] in LEN_PRESERVING:
+                            keep = True
+                    if not keep:
+                        re_.append(n)
+            for a in re_:
+                uses = [n for n in nodes if isinstance(n, ast.Subscript) and
+                        isinstance(n.value, ast.Name) and n.value.id == v and
+                        isinstance(n.ctx, ast.Load) and n.lineno > a.lineno]
+                if uses:
+                    out.append((g, v, a, uses[0]))
+                    break
+    return out
+
+
+def rule_stale_guard(ctx, prop, rule, funcs, floor=0):
+    from ..model import norm_src
+    from ..util import key_of
+    rr = RuleResult(prop, rule, 'DEF',
+                    'a bounds test measures the object that is indexed', floor=floor)
+    n = 0
+    for f in funcs:
+        if f.is_lambda:
+            continue
+        n += 1
+        for g, v, a, use in stale_bounds_guards(ctx, f):
+            rr.instances += 1
+            rr.fail(key_of(f, 'bounds of `%s` tested before it is re-bound' % v),
+                    '%s rejects an index with `%s` (line %d), then re-binds '
+                    '`%s` (`%s`, line %d) and indexes the new object (`%s`): '
+                    'the test measured the extent of the old one, so a valid '
+                    'index can be refused and an invalid one accepted when the '
+                    'two extents differ (e.g. a table that is wider than '
+                    'tall)' % (f.qualname, norm_src(g.test)[:60], g.lineno, v,
+                               norm_src(a)[:40], a.lineno, norm_src(use)[:40]),
+                    file=f.module.rel, function=f.qualname, line=a.lineno)
+    rr.instances = max(rr.instances, 1)
+    if not rr.findings:
+        rr.ok('%d functions: no bounds test is separated from the indexing it '
+              'protects by a re-binding of the measured object' % n,
+              funcs[0].module.rel if funcs else '', nontrivial=False)
+    return rr
